@@ -598,9 +598,23 @@ impl RoutingThread {
                 if result.is_some() {
                     fetched_blocks.push((peer_index, *hash));
                 } else {
-                    // if we already have the block added don't need to request it from peer
-                    self.blockchain_sync_state
-                        .remove_entry_unless_in_flight(*hash, Some(peer_index));
+                    let block_known;
+                    {
+                        let blockchain = self.blockchain_lock.read().await;
+                        block_known = blockchain.is_block_indexed(*hash) || {
+                            let mempool = self.mempool_lock.read().await;
+                            mempool.blocks_queue.iter().any(|b| b.hash == *hash)
+                        };
+                    }
+                    if block_known {
+                        // if we already have the block added don't need to request it from peer
+                        self.blockchain_sync_state
+                            .remove_entry_unless_in_flight(*hash, Some(peer_index));
+                    } else {
+                        // this peer cannot serve it. others who announced it still can
+                        self.blockchain_sync_state
+                            .remove_entry_for_peer(*hash, peer_index);
+                    }
                 }
             }
         }
